@@ -334,15 +334,29 @@ def mu_name(ex, st, p):
     return repr(p)
 
 
+def _who(st):
+    who = 'A'
+    for f in st.frames:
+        if getattr(f, 'tag', None) is not None: who = f.tag
+    return who
+
+
 def mu_lock(ex, st, a, ins):
-    n = mu_name(ex, st, a[0]); st.ev('lock', mu=n)
-    st.aux.setdefault('locks', []).append(n)
+    n = mu_name(ex, st, a[0])
+    own = st.aux.setdefault('lock_owner', {}); who = _who(st)
+    if own.get(n) not in (None, who):
+        # an injected request needs a mutex the interrupted request holds: it would block here, so this schedule does not exist
+        # (the schedule in which it runs after the release is explored from that release)
+        st.status = 'infeasible'; return None
+    st.ev('lock', mu=n)
+    st.aux.setdefault('locks', []).append(n); own[n] = who
 
 
 def mu_unlock(ex, st, a, ins):
     n = mu_name(ex, st, a[0])
     l = st.aux.setdefault('locks', [])
     if n in l: l.remove(n)
+    if n not in l: st.aux.setdefault('lock_owner', {}).pop(n, None)
     st.ev('unlock', mu=n)
 
 
